@@ -1,6 +1,7 @@
 import RexModel.Gen.Calls
 import RexModel.Gen.Compiled
 import RexModel.Async.Calls
+import RexModel.Props.C03
 
 /-! # C06 — every scheduled step executes the user's step function exactly once
 
@@ -71,6 +72,12 @@ theorem async_calls_once {T : Type} [Rex.Async.TimeLike T] (cfg : Rex.Async.Cfg 
     (h : Rex.Conf.Run (Rex.Async.machine cfg).toNet.sys (Rex.Async.initState cfg) σ s) (n : Nat) (hn : n ≠ cfg.sup) :
     (s.q (.node n .record)).length = (s.priv (.step n)).calls ∧ (s.priv (.step n)).pending = none :=
   Rex.Async.callsInv_run cfg h (Rex.Async.callsInv_init cfg) n hn
+
+/-- … and the k-th execution is the one with sequence number k: recorded ticks are numbered 0, 1, 2, … (from C03) -/
+theorem async_ticks_numbered {T : Type} [Rex.Async.TimeLike T] (cfg : Rex.Async.Cfg T) (n : Nat) {σ : List Rex.Async.Rule} {s : Rex.Async.MSt T}
+    (h : Rex.Conf.Run (Rex.Async.machine cfg).toNet.sys (Rex.Async.initState cfg) σ s) :
+    Rex.Async.recTicks (s.q (.node n .record)) = Rex.Async.upTo (Rex.Async.recTicks (s.q (.node n .record))).length :=
+  Rex.C03.C03_node_seq_gapfree cfg n h
 
 example : runSlots [⟨0, true, 3⟩, ⟨1, false, 5⟩, ⟨0, true, 4⟩] = [(0, 3), (0, 4)] := by decide
 
